@@ -256,7 +256,7 @@ def negotiate (configured : Option String) (accept : Option (List (Option String
   match configured, accept with
   | some v, _ => v
   | none, none => json
-  | none, some parts => ((parts.filterMap wants).head?).getD gqlresp
+  | none, some parts => (parts.findSome? wants).getD gqlresp
 
 /-- the client-error status defined for a media type -/
 def clientError (ct : String) : Nat := if ct = gqlresp then 400 else 422
@@ -284,7 +284,8 @@ def is2xx (s : Nat) : Bool := 200 ≤ s && s < 300
 def s1 (_srv : List Transport) (r : Req) (o : Resp) : Prop :=
   r.method = .get →
     (∀ op, o.executed = some op → op.kind = .astQuery) ∧
-    (∀ op ∈ docOps r.doc, Names (docOps r.doc) r.opName op → op.kind ≠ .astQuery →
+    (((docOps r.doc).map (·.name)).Nodup →      -- operation names are unique in a validated document
+      ∀ op ∈ docOps r.doc, Names (docOps r.doc) r.opName op → op.kind ≠ .astQuery →
         o.executed = none ∧ o.body ≠ .data)
 
 /-- S2: what executes is the operation the request names -/
@@ -312,28 +313,43 @@ def s6 (srv : List Transport) (r : Req) (o : Resp) : Prop :=
 def s7 (srv : List Transport) (r : Req) (o : Resp) : Prop :=
   o.body ≠ .bad ∧ (o.body = .empty → ∃ t, getTransport srv r = some t ∧ t.kind = .options)
 
-/-- executable form of S1–S7 for the driver: names of the clauses an observed response violates -/
-def violations (srv : List Transport) (r : Req) (o : Resp) : List String :=
+/-! executable forms of S1–S7 for the driver (`Props/C09.lean` proves each `cᵢ = true ↔ sᵢ`) -/
+
+def c1 (_srv : List Transport) (r : Req) (o : Resp) : Bool :=
   let ops := docOps r.doc
-  let neg := negotiate (configured srv r) r.accept
-  let c1 := r.method ≠ .get ||
+  r.method ≠ .get ||
     ((match o.executed with | some op => op.kind = .astQuery | none => true) &&
-     ops.all (fun op => !(decide (Names ops r.opName op) && op.kind ≠ .astQuery) ||
-        (o.executed = none && o.body ≠ .data)))
-  let c2 := match o.executed with | some op => decide (Names ops r.opName op) | none => true
-  let c3 := is2xx o.status || o.executed = none
-  let c4 := o.executed = none || o.status = 200
-  let c5 := !(reachesGate srv r && docFails r) || (o.status = clientError neg && o.executed = none)
-  let c6 := o.body = .empty || o.ctype = some neg
-  let c7 := o.body ≠ .bad && (o.body ≠ .empty ||
+     (!decide ((ops.map (·.name)).Nodup) ||
+      ops.all (fun op => !(decide (Names ops r.opName op) && op.kind ≠ .astQuery) ||
+        (o.executed = none && o.body ≠ .data))))
+
+def c2 (_srv : List Transport) (r : Req) (o : Resp) : Bool :=
+  match o.executed with | some op => decide (Names (docOps r.doc) r.opName op) | none => true
+
+def c3 (_srv : List Transport) (_r : Req) (o : Resp) : Bool := is2xx o.status || o.executed = none
+
+def c4 (_srv : List Transport) (_r : Req) (o : Resp) : Bool := o.executed = none || o.status = 200
+
+def c5 (srv : List Transport) (r : Req) (o : Resp) : Bool :=
+  !(reachesGate srv r && docFails r) ||
+    (o.status = clientError (negotiate (configured srv r) r.accept) && o.executed = none)
+
+def c6 (srv : List Transport) (r : Req) (o : Resp) : Bool :=
+  o.body = .empty || o.ctype = some (negotiate (configured srv r) r.accept)
+
+def c7 (srv : List Transport) (r : Req) (o : Resp) : Bool :=
+  o.body ≠ .bad && (o.body ≠ .empty ||
     (match getTransport srv r with | some t => t.kind = .options | none => false))
-  (if c1 then [] else ["get_executes_only_queries"]) ++
-  (if c2 then [] else ["executes_named_operation"]) ++
-  (if c3 then [] else ["non2xx_ran_nothing"]) ++
-  (if c4 then [] else ["started_is_200"]) ++
-  (if c5 then [] else ["parse_validation_status"]) ++
-  (if c6 then [] else ["content_type_negotiated"]) ++
-  (if c7 then [] else ["body_is_graphql_json"])
+
+/-- names of the clauses an observed response violates -/
+def violations (srv : List Transport) (r : Req) (o : Resp) : List String :=
+  (if c1 srv r o then [] else ["get_executes_only_queries"]) ++
+  (if c2 srv r o then [] else ["executes_named_operation"]) ++
+  (if c3 srv r o then [] else ["non2xx_ran_nothing"]) ++
+  (if c4 srv r o then [] else ["started_is_200"]) ++
+  (if c5 srv r o then [] else ["parse_validation_status"]) ++
+  (if c6 srv r o then [] else ["content_type_negotiated"]) ++
+  (if c7 srv r o then [] else ["body_is_graphql_json"])
 
 end Spec
 end GqlgenVerif.Http
